@@ -212,6 +212,14 @@ func genC04Stmt(r *Rng, idx int, mysql bool) c04stmt {
 			st.tags = append(st.tags, "star")
 		}
 	}
+	if len(lines) > 1 && r.Chance(15) {
+		// a line that starts with a (closed) block comment and goes on with SQL
+		k := 1 + r.Intn(len(lines)-1)
+		if !strings.HasPrefix(lines[k], "--") {
+			lines[k] = r.Pick([]string{"/* note */ ", "/*+ hint */ ", "/**/ "}) + lines[k]
+			st.tags = append(st.tags, "line-starts-with-block-comment")
+		}
+	}
 	indent := r.Pick([]string{"", "  ", "\t"})
 	for i := range lines {
 		if !strings.HasPrefix(lines[i], "--") {
